@@ -153,9 +153,19 @@ def run_bcheck(modname, chk, tier, seed, deadline):
     budget = chk.budget_s.get(tier, 60)
     stop_at = min(deadline, t0 + budget)
 
+    rounds = [1]
+
+    def input_stream():
+        yield from chk.inputs(tier, rng)
+        # thorough tier: further rounds of the seeded generators with fresh seeds while less than half of the check's time budget is used
+        # (exhaustively enumerated inputs repeat and are counted once in `distinct`)
+        while tier == "thorough" and tier not in chk.exhaustive_in and time.time() < t0 + 0.5 * budget and rounds[0] < 12 and time.time() < stop_at:
+            rounds[0] += 1
+            yield from chk.inputs(tier, random.Random("%s/%s/%d/round%d" % (chk.name, tier, seed, rounds[0])))
+
     def batches():
         batch = []
-        for inp in chk.inputs(tier, rng):
+        for inp in input_stream():
             batch.append(inp)
             if len(batch) >= chk.chunk:
                 yield batch
@@ -223,7 +233,8 @@ def run_bcheck(modname, chk, tier, seed, deadline):
             if time.time() > stop_at:
                 truncated = True
                 break
-    return dict(name=chk.name, contract=chk.contract, rule=chk.rule, evaluations=evaluations, distinct=len(distinct),
+    return dict(name=chk.name, contract=chk.contract, rule=chk.rule + ("; %d rounds of the generators with different seeds" % rounds[0] if rounds[0] > 1 else ""),
+                evaluations=evaluations, distinct=len(distinct),
                 distinct_nontrivial=nontrivial, failures=failures, samples=samples, truncated=truncated,
                 exhaustive=(tier in chk.exhaustive_in) and not truncated, seconds=round(time.time() - t0, 2))
 
